@@ -205,6 +205,20 @@ def _loads_xml(string):
     return orb
 
 
+def _ephemeris_type(data):
+    """Ephemeris type of an orbit created from a TLE ('type') or from an OMM"""
+    return data._data.get("ephemeris_type", data._data.get("type", 0))
+
+
+def _classification_type(data):
+    """Classification of an orbit created from a TLE or from an OMM"""
+    if "classification_type" in data._data:
+        return data._data["classification_type"]
+    elif "tle" in data._data:
+        return data._data["tle"].classification
+    return "U"
+
+
 def _dumps_kvn(data, **kwargs):
 
     header = dump_kvn_header(data, "OMM", version="2.0", **kwargs)
@@ -228,11 +242,11 @@ ARG_OF_PERICENTER    = {omega:8.4f} [deg]
 MEAN_ANOMALY         = {M:8.4f} [deg]
 GM                   = {mu:0.1f} [km**3/s**2]
 
-EPHEMERIS_TYPE       = {tle.tle.type}
-CLASSIFICATION_TYPE  = {tle.tle.classification:}
-NORAD_CAT_ID         = {tle.tle.norad_id}
-ELEMENT_SET_NO       = {tle.tle.element_nb}
-REV_AT_EPOCH         = {tle.tle.revolutions}
+EPHEMERIS_TYPE       = {ephemeris_type}
+CLASSIFICATION_TYPE  = {classification_type}
+NORAD_CAT_ID         = {tle.norad_id}
+ELEMENT_SET_NO       = {tle.element_nb}
+REV_AT_EPOCH         = {tle.revolutions}
 BSTAR                = {bstar:6.9f} [1/ER]
 MEAN_MOTION_DOT      = {ndot: 10.8f} [rev/day**2]
 MEAN_MOTION_DDOT     = {ndotdot:0.1f} [rev/day**3]
@@ -243,6 +257,8 @@ MEAN_MOTION_DDOT     = {ndotdot:0.1f} [rev/day**3]
         omega=code_unit(data, "omega", "deg"),
         M=code_unit(data, "M", "deg"),
         tle=data,
+        ephemeris_type=_ephemeris_type(data),
+        classification_type=_classification_type(data),
         bstar=code_unit(data, "bstar", "1/ER"),
         ndot=code_unit(data, "ndot", "rev/day**2") / 2,
         ndotdot=code_unit(data, "ndotdot", "rev/day**3") / 6,
@@ -302,9 +318,9 @@ def _dumps_xml(data, **kwargs):
     if theory == "SGP/SGP4":  # pragma: no branch
         tle_params = ET.SubElement(data_tag, "tleParameters")
         ephemeris_type = ET.SubElement(tle_params, "EPHEMERIS_TYPE")
-        ephemeris_type.text = "0"
+        ephemeris_type.text = str(_ephemeris_type(data))
         classification = ET.SubElement(tle_params, "CLASSIFICATION_TYPE")
-        classification.text = "U"
+        classification.text = _classification_type(data)
         norad_id = ET.SubElement(tle_params, "NORAD_CAT_ID")
         norad_id.text = str(data.norad_id)
         element_nb = ET.SubElement(tle_params, "ELEMENT_SET_NO")
